@@ -57,7 +57,6 @@ type harness struct {
 	pDisabledAtCreate int
 	skew        bool
 	xlag        bool
-	waiveStale  bool
 	envW        []int
 
 	faultsOn   bool
@@ -155,8 +154,8 @@ func (h *harness) configure() {
 	h.names = []string{"a", "b", "c", "d", "e", "f", "g", "h"}
 	h.maxPools = r.Src.Range(2, map[bool]int{false: 5, true: 7}[h.thorough], "max_pools")
 	r.Cfg("max_pools", h.maxPools)
-	h.lagMode = r.Src.Weighted([]int{2, 4, 4}, "lag_mode")
-	r.Cfg("lag_mode", []string{"none", "mild", "heavy"}[h.lagMode])
+	h.lagMode = r.Src.Weighted([]int{2, 3, 3, 4}, "lag_mode")
+	r.Cfg("lag_mode", []string{"none", "mild", "heavy", "own-writes-trickle"}[h.lagMode])
 	h.pInter = []int{0, 80, 250, 500}[r.Src.Weighted([]int{2, 3, 3, 2}, "interleave_level")]
 	r.Cfg("interleave_permille", h.pInter)
 	lvl := r.Src.Weighted([]int{3, 4, 3}, "fault_level")
@@ -177,7 +176,6 @@ func (h *harness) configure() {
 	r.Cfg("clock_skew", h.skew)
 	h.xlag = os.Getenv("VERIF_POOLCTL_XLAG") != ""
 	r.Cfg("cross_watch_lag", h.xlag)
-	h.waiveStale = os.Getenv("VERIF_POOLCTL_WAIVE_STALE") != ""
 
 	// environment action mix: create, toggle-disabled, delete, touch, block add, block remove, deliver pool events,
 	// deliver block events, spurious trigger
@@ -185,6 +183,9 @@ func (h *harness) configure() {
 		r.Src.Range(8, 25, "w_create"), r.Src.Range(0, 12, "w_toggle"), r.Src.Range(2, 14, "w_delete"), r.Src.Range(0, 6, "w_touch"),
 		r.Src.Range(2, 16, "w_block_add"), r.Src.Range(2, 12, "w_block_rm"), r.Src.Range(8, 30, "w_deliver_pool"),
 		r.Src.Range(4, 16, "w_deliver_block"), r.Src.Range(0, 4, "w_trigger"),
+	}
+	if h.lagMode == 3 {
+		h.envW[2] += 10 // deletions racing with the echo of the controller's own writes
 	}
 }
 
@@ -305,6 +306,18 @@ func (h *harness) afterAPIChange() {
 		if h.r.Src.Chance(600, "prompt_delivery") {
 			h.inc.deliverAll()
 		}
+	case 3:
+		// Everybody else's changes arrive promptly; the echo of the controller's own writes trickles in, so
+		// passes run on caches that sit between two of its own writes.
+		for h.inc.blockInf.pending() > 0 {
+			h.inc.blockInf.deliverOne()
+		}
+		for h.inc.poolInf.pending() > 0 {
+			if h.api.poolLog[h.inc.poolInf.pos].pass != 0 && h.r.Src.Chance(600, "own_write_echo_held") {
+				break
+			}
+			h.inc.deliverPool()
+		}
 	}
 }
 
@@ -328,7 +341,16 @@ func (h *harness) envAction() {
 			h.afterAPIChange()
 		}
 	case 2:
-		if p := h.pickPool("delete_target"); p != nil {
+		p := h.pickPool("delete_target")
+		if p != nil && r.Src.Chance(500, "delete_prefers_allocatable") {
+			for _, q := range h.api.sortedPools() {
+				if isTrue(q) && q.DeletionTimestamp == nil {
+					p = q
+					break
+				}
+			}
+		}
+		if p != nil {
 			wasTerminating := p.DeletionTimestamp != nil
 			gone := h.api.adminDelete(p)
 			r.Op("admin deletes %s (gone=%v)", poolLine(p), gone)
@@ -386,7 +408,10 @@ func (h *harness) actDeliver(pool bool) {
 	if inf.pending() == 0 {
 		return
 	}
-	n := 1 + h.r.Src.Intn(inf.pending(), "deliver_n")
+	n := 1
+	if h.lagMode != 3 {
+		n = 1 + h.r.Src.Intn(inf.pending(), "deliver_n")
+	}
 	h.r.Op("watch delivers %d of %d pending %s events", n, inf.pending(), inf.kind)
 	for i := 0; i < n && inf.pending() > 0; i++ {
 		if pool {
